@@ -63,20 +63,12 @@ theorem colourAt_map_lostRun (l : List Run) (p : Colour) (x : Nat) :
     · exact ih c
 
 /-- colour of a list of `Lost` runs -/
-theorem colourAt_lostList (l : List Run) (p : Colour) (x : Nat) (h : ∀ r ∈ l, r.2 = Colour.lost) :
-    colourAt l p x = match l with
-      | [] => p
-      | r :: _ => if x < r.1 then p else Colour.lost := by
-  cases l with
-  | nil => rfl
-  | cons r l =>
-    obtain ⟨o, c⟩ := r
-    have hc : c = Colour.lost := h (o, c) (by simp)
-    subst hc
-    simp only [colourAt]
-    split
-    · rfl
-    · exact colourAt_allc l _ x (fun r hr => h r (by simp [hr]))
+theorem colourAt_lostCons (o : Nat) (l : List Run) (p : Colour) (x : Nat) (h : ∀ r ∈ l, r.2 = Colour.lost) :
+    colourAt ((o, Colour.lost) :: l) p x = if x < o then p else Colour.lost := by
+  simp only [colourAt]
+  split
+  · rfl
+  · exact colourAt_allc l _ x h
 
 theorem lastCol_of_ne_nil (l : List Run) (p q : Colour) (h : l ≠ []) : lastCol l p = lastCol l q := by
   cases l with
@@ -193,12 +185,519 @@ theorem mlfScan_spec (e size : Nat) (he : e ≤ size) (rest : List Run) :
       · subst hoe2
         refine ⟨[], (o, c) :: rest, rfl, by simp, Or.inr (Or.inr (Or.inl ⟨c, rest, rfl, ?_⟩))⟩
         have hd : (done.reverse ++ (o, c) :: rest).drop idx = (o, c) :: rest := by
-          have := drop_prefix done.reverse ((o, c) :: rest) 0
-          simpa [hidx] using this
+          simp [hidx]
         simp [mlfScan, sameAfterP1, hd, lastCol_nil]
         rfl
       · refine ⟨[], (o, c) :: rest, rfl, by simp, Or.inr (Or.inr (Or.inr ⟨o, c, rest, rfl, by omega, ?_⟩))⟩
         simp [mlfScan, hoe, hoe2, lastCol_nil]
         rfl
+
+/-! ### the tail of `may_lost_from`: re-insert the end, drain the merged runs -/
+
+def mlfPost (runs2 : List Run) (idxStart idx e : Nat) (pre : Colour) (nie : Bool) : Res (List Run) := do
+  let (runs3, idxStart) ← if nie then do
+      let l ← if idxStart + 1 < idx then setAt runs2 (idxStart + 1) (e, pre) else insertAt runs2 (idxStart + 1) (e, pre)
+      pure (l, idxStart + 1)
+    else pure (runs2, idxStart)
+  if idxStart + 1 < idx then drain runs3 (idxStart + 1) idx else pure runs3
+
+theorem mayLostFrom_succ (fuel : Nat) (runs : List Run) (size j e : Nat) :
+    mayLostFrom (fuel + 1) runs size j e = (do
+      let (runs1, idx, pre, nie, recAt) ← mlfScan e size (runs.take j).reverse (runs.drop j) j .recved
+      let runs2 ← match recAt with
+        | some j => mayLostFrom fuel runs1 size j e
+        | none => pure runs1
+      mlfPost runs2 j idx e pre nie) := rfl
+
+theorem setAt_ok (l : List Run) (i : Nat) (r : Run) (h : i < l.length) : setAt l i r = .ok (l.set i r) := by
+  simp [setAt, h]; rfl
+
+theorem insertAt_ok (l : List Run) (i : Nat) (r : Run) (h : i ≤ l.length) :
+    insertAt l i r = .ok (l.take i ++ r :: l.drop i) := by
+  simp [insertAt, h]; rfl
+
+theorem drain_ok (l : List Run) (a b : Nat) (h1 : a ≤ b) (h2 : b ≤ l.length) :
+    drain l a b = .ok (l.take a ++ l.drop b) := by
+  simp [drain, h1, h2]; rfl
+
+theorem mlfPost_spec (P M S : List Run) (e : Nat) (pre : Colour) (nie : Bool) (hn : nie = true → M ≠ []) :
+    mlfPost (P ++ M ++ S) P.length (P.length + M.length) e pre nie
+      = .ok (P ++ (M.take 1 ++ ((if nie = true then [(e, pre)] else []) ++ S))) := by
+  match M, hn with
+  | [], hn =>
+    cases nie
+    · have : ¬ P.length + 1 < P.length := by omega
+      simp [mlfPost, this]; rfl
+    · exact absurd rfl (hn rfl)
+  | [m], _ =>
+    have hn1 : ¬ P.length + 1 < P.length + 1 := by omega
+    have hn2 : ¬ P.length + 1 + 1 < P.length + 1 := by omega
+    cases nie
+    · simp [mlfPost]; rfl
+    · have h1 : (P ++ [m] ++ S).take (P.length + 1) = P ++ [m] := by
+        have := take_prefix P ([m] ++ S) 1
+        simpa using this
+      have h2 : (P ++ [m] ++ S).drop (P.length + 1) = S := by
+        simp
+      have hi := insertAt_ok (P ++ [m] ++ S) (P.length + 1) (e, pre) (by simp)
+      rw [h1, h2] at hi
+      simp only [mlfPost, List.length_cons, List.length_nil, if_true, hn1, if_false, hi, Nat.zero_add]
+      simp [bind, Except.bind, pure, Except.pure, hn2]
+  | m :: m' :: M'', _ =>
+    have hX : P ++ m :: m' :: M'' ++ S = P ++ (m :: m' :: (M'' ++ S)) := by simp
+    have hlen : ∀ Y : Run, (P ++ (m :: Y :: (M'' ++ S))).length = P.length + (M''.length + 2) + S.length := by
+      intro Y; simp; omega
+    have hd : ∀ Y : Run, (P ++ (m :: Y :: (M'' ++ S))).drop (P.length + (M''.length + 2)) = S := by
+      intro Y
+      have := drop_prefix P (m :: Y :: (M'' ++ S)) (M''.length + 2)
+      rw [this]; simp
+    have h1 : P.length + 1 < P.length + (m :: m' :: M'').length := by simp
+    have hML : (m :: m' :: M'').length = M''.length + 2 := by simp
+    rw [hX]
+    cases nie
+    · have ht : (P ++ (m :: m' :: (M'' ++ S))).take (P.length + 1) = P ++ [m] := by
+        have := take_prefix P (m :: m' :: (M'' ++ S)) 1
+        rw [this]; simp
+      have hdr := drain_ok (P ++ (m :: m' :: (M'' ++ S))) (P.length + 1) (P.length + (M''.length + 2))
+        (by omega) (by rw [hlen]; omega)
+      rw [ht, hd] at hdr
+      simp only [mlfPost, Bool.false_eq_true, if_false, bind, Except.bind, pure, Except.pure, hML, hdr]
+      simp
+    · have hs : (P ++ (m :: m' :: (M'' ++ S))).set (P.length + 1) (e, pre) = P ++ (m :: (e, pre) :: (M'' ++ S)) := by
+        have := set_prefix P (m :: m' :: (M'' ++ S)) 1 (e, pre)
+        rw [this]; simp
+      have hset := setAt_ok (P ++ (m :: m' :: (M'' ++ S))) (P.length + 1) (e, pre) (by rw [hlen]; omega)
+      rw [hs] at hset
+      simp only [mlfPost, if_true, hset, bind, Except.bind, pure, Except.pure, hML]
+      by_cases hM : M'' = []
+      · subst hM
+        simp
+      · have hpos : 0 < M''.length := List.length_pos_iff.mpr hM
+        have h2 : P.length + 1 + 1 < P.length + (M''.length + 2) := by omega
+        have ht : (P ++ (m :: (e, pre) :: (M'' ++ S))).take (P.length + 1 + 1) = P ++ [m, (e, pre)] := by
+          have := take_prefix P (m :: (e, pre) :: (M'' ++ S)) 2
+          rw [show P.length + 1 + 1 = P.length + 2 by omega, this]; simp
+        have hdr := drain_ok (P ++ (m :: (e, pre) :: (M'' ++ S))) (P.length + 1 + 1) (P.length + (M''.length + 2))
+          (by omega) (by rw [hlen]; omega)
+        rw [ht, hd] at hdr
+        simp only [h2, if_true, hdr]
+        simp
+
+/-! ### `may_lost_from` -/
+
+theorem sorted_append {l1 l2 : List Run} :
+    Sorted (l1 ++ l2) ↔ Sorted l1 ∧ Sorted l2 ∧ ∀ a ∈ l1, ∀ b ∈ l2, a.1 < b.1 := by
+  unfold Sorted; exact List.pairwise_append
+
+theorem sorted_cons {r : Run} {l : List Run} : Sorted (r :: l) ↔ (∀ b ∈ l, r.1 < b.1) ∧ Sorted l := by
+  unfold Sorted; exact List.pairwise_cons
+
+theorem sorted_map_toLost {l : List Run} (h : Sorted l) : Sorted (l.map toLost) := by
+  unfold Sorted at *
+  rw [List.pairwise_map]
+  exact h
+
+theorem mem_map_toLost {l : List Run} {r : Run} (h : r ∈ l.map toLost) : ∃ r0 ∈ l, r.1 = r0.1 := by
+  rw [List.mem_map] at h
+  obtain ⟨r0, h0, rfl⟩ := h
+  exact ⟨r0, h0, rfl⟩
+
+/-- keeping only the first of a block of `Lost` runs does not change the colours -/
+theorem take1_spec (M S : List Run) (hM : ∀ r ∈ M, r.2 = Colour.lost) (hs : Sorted (M ++ S)) :
+    Sorted (M.take 1 ++ S) ∧ (∀ r ∈ M.take 1 ++ S, r ∈ M ++ S) ∧
+      ∀ p x, colourAt (M.take 1 ++ S) p x = colourAt (M ++ S) p x := by
+  cases M with
+  | nil => exact ⟨hs, fun r h => h, fun p x => rfl⟩
+  | cons m M =>
+    obtain ⟨o, c⟩ := m
+    have hc : c = Colour.lost := hM (o, c) (by simp)
+    subst hc
+    rw [List.cons_append, sorted_cons] at hs
+    obtain ⟨h1, h2⟩ := hs
+    rw [sorted_append] at h2
+    obtain ⟨h2, h3, h4⟩ := h2
+    refine ⟨?_, ?_, ?_⟩
+    · simp only [List.take_succ_cons, List.take_zero, List.cons_append, List.nil_append]
+      rw [sorted_cons]
+      exact ⟨fun b hb => h1 b (by simp [hb]), h3⟩
+    · intro r hr
+      simp at hr ⊢
+      rcases hr with h | h
+      · exact Or.inl h
+      · exact Or.inr (Or.inr h)
+    · intro p x
+      simp only [List.take_succ_cons, List.take_zero, List.cons_append, List.nil_append, colourAt]
+      split
+      · rfl
+      · rw [colourAt_append M S _ x (fun a ha b hb => Nat.le_of_lt (h4 a ha b hb)),
+          colourAt_allc M _ x (fun r hr => hM r (by simp [hr]))]
+
+/-- reduction of the colour equation to what happens at and after the end `e` of the range -/
+theorem colour_reduce (L R S' : List Run) (e : Nat)
+    (hL : ∀ r ∈ L, r.1 < e ∧ (r.2 = Colour.flighting ∨ r.2 = Colour.lost))
+    (hLR : ∀ r ∈ L, ∀ s ∈ R, r.1 ≤ s.1) (hLS : ∀ r ∈ L, ∀ s ∈ S', r.1 ≤ s.1) (p : Colour) (x : Nat)
+    (h : ∀ q, (e ≤ x → q = if L = [] then p else Colour.lost) →
+      colourAt S' q x = if x < e then colourAt (R.map lostRun) q x else colourAt R (lastCol L p) x) :
+    colourAt (L.map toLost ++ S') p x
+      = if x < e then colourAt ((L ++ R).map lostRun) p x else colourAt (L ++ R) p x := by
+  have hmap : L.map lostRun = L.map toLost := by
+    apply List.map_congr_left
+    intro r hr
+    obtain ⟨_, h2⟩ := hL r hr
+    obtain ⟨o, c⟩ := r
+    rcases h2 with h2 | h2 <;> simp at h2 <;> subst h2 <;> rfl
+  have hq : e ≤ x → colourAt (L.map toLost) p x = if L = [] then p else Colour.lost := by
+    intro hx
+    cases L with
+    | nil => rfl
+    | cons r L =>
+      have := (hL r (by simp)).1
+      have h' : ¬ x < r.1 := by omega
+      simp only [List.map_cons, toLost]
+      rw [colourAt_lostCons _ _ p x (by
+        intro r hr
+        rw [List.mem_map] at hr
+        obtain ⟨r0, _, rfl⟩ := hr
+        rfl)]
+      simp [h']
+  rw [colourAt_append _ _ _ _ (by
+    intro r1 h1 r2 h2
+    obtain ⟨r0, h0, h0'⟩ := mem_map_toLost h1
+    rw [h0']
+    exact hLS r0 h0 r2 h2)]
+  rw [List.map_append, hmap, colourAt_append _ _ _ _ (by
+    intro r1 h1 r2 h2
+    obtain ⟨r0, h0, h0'⟩ := mem_map_toLost h1
+    rw [List.mem_map] at h2
+    obtain ⟨s0, hs0, rfl⟩ := h2
+    rw [h0']
+    exact hLR r0 h0 s0 hs0)]
+  rw [colourAt_append L R p x hLR]
+  rw [h _ hq]
+  split
+  · rfl
+  · rename_i hx
+    rw [colourAt_ge_all L p x (fun r hr => by have := (hL r hr).1; omega)]
+
+theorem mayLostFrom_spec (size e : Nat) (he : e ≤ size) (fuel : Nat) :
+    ∀ (P rest : List Run), rest.length < fuel → Sorted rest → (∀ r ∈ rest, r.1 < size) →
+      (∀ r ∈ rest, r.1 < e → r.2 ≠ Colour.pending) →
+      ∃ rest', mayLostFrom fuel (P ++ rest) size P.length e = .ok (P ++ rest') ∧
+        Sorted rest' ∧ (∀ r ∈ rest', r.1 < size) ∧
+        (∀ lb, (∀ r ∈ rest, lb < r.1) → ∀ r ∈ rest', lb < r.1) ∧
+        ∀ p x, x < size → colourAt rest' p x
+          = if x < e then colourAt (rest.map lostRun) p x else colourAt rest p x := by
+  induction fuel with
+  | zero => intro P rest h; exact absurd h (Nat.not_lt_zero _)
+  | succ fuel ih =>
+    intro P rest hfuel hsorted hsize hnp
+    have htake : (P ++ rest).take P.length = P := by
+      simp
+    have hdrop : (P ++ rest).drop P.length = rest := by
+      simp
+    obtain ⟨L, R, hLR, hL, hscan⟩ := mlfScan_spec e size he rest P.reverse P.length Colour.recved (by simp) hnp
+    subst hLR
+    rw [sorted_append] at hsorted
+    obtain ⟨hsL, hsR, hLltR⟩ := hsorted
+    have hLleR : ∀ r ∈ L, ∀ s ∈ R, r.1 ≤ s.1 := fun r hr s hs => Nat.le_of_lt (hLltR r hr s hs)
+    have hLm : ∀ r ∈ L.map toLost, r.2 = Colour.lost := by
+      intro r hr
+      rw [List.mem_map] at hr
+      obtain ⟨r0, _, rfl⟩ := hr
+      rfl
+    simp only [List.reverse_reverse] at hscan
+    rw [mayLostFrom_succ, htake, hdrop]
+    -- common finishing step: from the un-drained list `L.map toLost ++ S'` to the result
+    have finish : ∀ (S' : List Run) (res : List Run),
+        (∀ p x, colourAt res p x = colourAt (L.map toLost ++ S') p x) →
+        Sorted res → (∀ r ∈ res, r ∈ L.map toLost ++ S') →
+        Sorted S' → (∀ r ∈ L, ∀ s ∈ S', r.1 < s.1) → (∀ s ∈ S', s.1 < size) →
+        (∀ lb, (∀ r ∈ R, lb < r.1) → (L = [] ∨ lb < e) → ∀ r ∈ S', lb < r.1) →
+        (∀ p x, x < size → ∀ q, (e ≤ x → q = if L = [] then p else Colour.lost) →
+          colourAt S' q x = if x < e then colourAt (R.map lostRun) q x else colourAt R (lastCol L p) x) →
+        Sorted res ∧ (∀ r ∈ res, r.1 < size) ∧
+        (∀ lb, (∀ r ∈ L ++ R, lb < r.1) → ∀ r ∈ res, lb < r.1) ∧
+        ∀ p x, x < size → colourAt res p x
+          = if x < e then colourAt ((L ++ R).map lostRun) p x else colourAt (L ++ R) p x := by
+      intro S' res hcol hsres hmem hsS hLS hSsize hlb hc
+      refine ⟨hsres, ?_, ?_, ?_⟩
+      · intro r hr
+        have := hmem r hr
+        rw [List.mem_append] at this
+        rcases this with h | h
+        · obtain ⟨r0, h0, h0'⟩ := mem_map_toLost h
+          rw [h0']; exact hsize r0 (by simp [h0])
+        · exact hSsize r h
+      · intro lb hlbh r hr
+        have := hmem r hr
+        rw [List.mem_append] at this
+        rcases this with h | h
+        · obtain ⟨r0, h0, h0'⟩ := mem_map_toLost h
+          rw [h0']; exact hlbh r0 (by simp [h0])
+        · refine hlb lb (fun r hr => hlbh r (by simp [hr])) ?_ r h
+          cases L with
+          | nil => exact Or.inl rfl
+          | cons r0 L =>
+            right
+            have h1 := hlbh r0 (by simp)
+            have h2 := (hL r0 (by simp)).1
+            omega
+      · intro p x hx
+        rw [hcol]
+        exact colour_reduce L R S' e hL hLleR (fun r hr s hs => Nat.le_of_lt (hLS r hr s hs)) p x (hc p x hx)
+    have sortedFull : ∀ S' : List Run, Sorted S' → (∀ r ∈ L, ∀ s ∈ S', r.1 < s.1) →
+        Sorted (L.map toLost ++ S') := by
+      intro S' h1 h2
+      rw [sorted_append]
+      refine ⟨sorted_map_toLost hsL, h1, ?_⟩
+      intro a ha b hb
+      obtain ⟨r0, h0, h0'⟩ := mem_map_toLost ha
+      rw [h0']; exact h2 r0 h0 b hb
+    have finish1 : ∀ (S' : List Run),
+        Sorted S' → (∀ r ∈ L, ∀ s ∈ S', r.1 < s.1) → (∀ s ∈ S', s.1 < size) →
+        (∀ lb, (∀ r ∈ R, lb < r.1) → (L = [] ∨ lb < e) → ∀ r ∈ S', lb < r.1) →
+        (∀ p x, x < size → ∀ q, (e ≤ x → q = if L = [] then p else Colour.lost) →
+          colourAt S' q x = if x < e then colourAt (R.map lostRun) q x else colourAt R (lastCol L p) x) →
+        Sorted ((L.map toLost).take 1 ++ S') ∧ (∀ r ∈ (L.map toLost).take 1 ++ S', r.1 < size) ∧
+        (∀ lb, (∀ r ∈ L ++ R, lb < r.1) → ∀ r ∈ (L.map toLost).take 1 ++ S', lb < r.1) ∧
+        ∀ p x, x < size → colourAt ((L.map toLost).take 1 ++ S') p x
+          = if x < e then colourAt ((L ++ R).map lostRun) p x else colourAt (L ++ R) p x := by
+      intro S' hsS hLS hSsize hlb hc
+      obtain ⟨t1, t2, t3⟩ := take1_spec (L.map toLost) S' hLm (sortedFull S' hsS hLS)
+      exact finish S' _ t3 t1 t2 hsS hLS hSsize hlb hc
+    have hpreQ : (L = [] ∧ lastCol L Colour.recved = Colour.recved) ∨
+        (L ≠ [] ∧ (lastCol L Colour.recved = Colour.flighting ∨ lastCol L Colour.recved = Colour.lost)) := by
+      cases L with
+      | nil => exact Or.inl ⟨rfl, rfl⟩
+      | cons r L =>
+        right
+        refine ⟨by simp, ?_⟩
+        rw [lastCol_cons]
+        exact lastCol_prop (fun c => c = Colour.flighting ∨ c = Colour.lost) L r.2 (hL r (by simp)).2
+          (fun r' hr' => (hL r' (by simp [hr'])).2)
+    have hpreP : ∀ p, L ≠ [] → lastCol L p = lastCol L Colour.recved :=
+      fun p h => lastCol_of_ne_nil L p _ h
+    have hlenLm : (L.map toLost).length = L.length := List.length_map _
+    rcases hscan with ⟨hR, hscan⟩ | ⟨o, R', hR, hoe, hscan⟩ | ⟨c, R', hR, hscan⟩ | ⟨o, c, R', hR, hoe, hscan⟩
+    · -- end of the run list
+      subst hR
+      rw [hscan]
+      have hn : (decide (e < size) && lastCol L Colour.recved == Colour.flighting) = true → L.map toLost ≠ [] := by
+        intro h
+        rcases hpreQ with ⟨h1, h2⟩ | ⟨h1, _⟩
+        · rw [h2] at h; simp at h
+        · simpa using h1
+      have hpost := mlfPost_spec P (L.map toLost) [] e (lastCol L Colour.recved) _ hn
+      rw [hlenLm] at hpost
+      refine ⟨_, hpost, ?_⟩
+      apply finish1
+      · split <;> simp [Sorted]
+      · intro r hr s hs
+        split at hs
+        · simp at hs; subst hs; exact (hL r hr).1
+        · simp at hs
+      · intro s hs
+        split at hs
+        · rename_i hnie
+          simp at hs hnie; subst hs; exact hnie.1
+        · simp at hs
+      · intro lb _ hlb r hr
+        split at hr
+        · rename_i hnie
+          simp at hr; subst hr
+          rcases hlb with h | h
+          · rcases hpreQ with ⟨_, h2⟩ | ⟨h1, _⟩
+            · rw [h2] at hnie; simp at hnie
+            · exact absurd h h1
+          · exact h
+        · simp at hr
+      · intro p x hx q hq
+        by_cases hxe : x < e
+        · simp only [hxe, if_true, List.map_nil, colourAt]
+          split <;> simp [colourAt, hxe]
+        · have hq' := hq (by omega)
+          simp only [hxe, if_false, colourAt]
+          rcases hpreQ with ⟨h1, h2⟩ | ⟨h1, h2⟩
+          · subst h1
+            simp [lastCol_nil] at h2 hq' ⊢
+            simp [hq', colourAt]
+          · rw [hpreP p h1]
+            simp only [h1, if_false] at hq'
+            have hes : e < size := by omega
+            rcases h2 with h2 | h2
+            · simp [h2, hes, colourAt, hxe]
+            · simp [h2, colourAt, hq']
+    · -- a `Recved` run inside the range: recursive call
+      subst hR
+      rw [hscan]
+      have hsR' := (sorted_cons.mp hsR).2
+      have hoR' := (sorted_cons.mp hsR).1
+      have e1 : P ++ L.map toLost ++ (o, Colour.recved) :: R'
+          = (P ++ L.map toLost ++ [(o, Colour.recved)]) ++ R' := by simp
+      have e2 : (P ++ L.map toLost ++ [(o, Colour.recved)]).length = P.length + L.length + 1 := by simp; omega
+      obtain ⟨R'', hrec, hsR'', hsz'', hlb'', hcol''⟩ := ih (P ++ L.map toLost ++ [(o, Colour.recved)]) R'
+        (by simp at hfuel; omega) hsR' (fun r hr => hsize r (by simp [hr]))
+        (fun r hr => hnp r (by simp [hr]))
+      rw [e2, ← e1] at hrec
+      have e3 : (P ++ L.map toLost ++ [(o, Colour.recved)]) ++ R''
+          = P ++ L.map toLost ++ ((o, Colour.recved) :: R'') := by simp
+      have hpost := mlfPost_spec P (L.map toLost) ((o, Colour.recved) :: R'') e Colour.recved false (by simp)
+      rw [hlenLm, ← e3] at hpost
+      refine ⟨_, (by
+        show (mayLostFrom fuel _ size _ e >>= fun runs2 => mlfPost runs2 P.length (P.length + L.length) e
+          Colour.recved false) = _
+        rw [hrec]; exact hpost), ?_⟩
+      apply finish1
+      · simp only [Bool.false_eq_true, if_false, List.nil_append]
+        rw [sorted_cons]
+        exact ⟨hlb'' o hoR', hsR''⟩
+      · intro r hr s hs
+        simp only [Bool.false_eq_true, if_false, List.nil_append, List.mem_cons] at hs
+        rcases hs with rfl | hs
+        · exact hLltR r hr _ (by simp)
+        · exact hlb'' r.1 (fun r' hr' => hLltR r hr r' (by simp [hr'])) s hs
+      · intro s hs
+        simp only [Bool.false_eq_true, if_false, List.nil_append, List.mem_cons] at hs
+        rcases hs with rfl | hs
+        · exact hsize _ (by simp)
+        · exact hsz'' s hs
+      · intro lb hlb _ s hs
+        simp only [Bool.false_eq_true, if_false, List.nil_append, List.mem_cons] at hs
+        rcases hs with rfl | hs
+        · exact hlb _ (by simp)
+        · exact hlb'' lb (fun r' hr' => hlb r' (by simp [hr'])) s hs
+      · intro p x hx q _
+        simp only [Bool.false_eq_true, if_false, List.nil_append, colourAt, List.map_cons, lostRun, lostOf]
+        rw [hcol'' Colour.recved x hx]
+        by_cases h1 : x < o <;> by_cases h2 : x < e <;> simp [h1, h2]
+        omega
+    · -- a run starts exactly at the end of the range: merge with the `Lost` runs that follow
+      subst hR
+      rw [hscan]
+      obtain ⟨k, hk1, hk2, hk3⟩ := skipSame_spec Colour.lost ((e, c) :: R') (P.length + L.length) hsR
+      have hM : ∀ r ∈ L.map toLost ++ ((e, c) :: R').take k, r.2 = Colour.lost := by
+        intro r hr
+        rw [List.mem_append] at hr
+        rcases hr with h | h
+        · exact hLm r h
+        · exact hk3 r h
+      have e1 : P ++ L.map toLost ++ (e, c) :: R'
+          = P ++ (L.map toLost ++ ((e, c) :: R').take k) ++ ((e, c) :: R').drop k := by
+        simp only [List.append_assoc, List.take_append_drop]
+      have e2 : (L.map toLost ++ ((e, c) :: R').take k).length = L.length + k := by
+        rw [List.length_append, hlenLm, List.length_take]; omega
+      have hpost := mlfPost_spec P (L.map toLost ++ ((e, c) :: R').take k) (((e, c) :: R').drop k) e
+        (lastCol L Colour.recved) false (by simp)
+      rw [e2, ← e1, ← Nat.add_assoc, ← hk1] at hpost
+      refine ⟨_, hpost, ?_⟩
+      have hRe : ∀ s ∈ (e, c) :: R', e ≤ s.1 := by
+        intro s hs
+        simp only [List.mem_cons] at hs
+        rcases hs with rfl | hs
+        · exact Nat.le_refl _
+        · exact Nat.le_of_lt ((sorted_cons.mp hsR).1 s hs)
+      have hLS : ∀ r ∈ L, ∀ s ∈ (e, c) :: R', r.1 < s.1 := hLltR
+      have hfull : L.map toLost ++ ((e, c) :: R').take k ++ ((e, c) :: R').drop k
+          = L.map toLost ++ (e, c) :: R' := by
+        simp only [List.append_assoc, List.take_append_drop]
+      obtain ⟨t1, t2, t3⟩ := take1_spec (L.map toLost ++ ((e, c) :: R').take k) (((e, c) :: R').drop k) hM
+        (by rw [hfull]; exact sortedFull _ hsR hLS)
+      simp only [Bool.false_eq_true, if_false, List.nil_append]
+      rw [hfull] at t2 t3
+      refine finish ((e, c) :: R') _ t3 t1 t2 hsR hLS (fun s hs => hsize s (by simp [hs]))
+        (fun lb h _ r hr => h r hr) ?_
+      intro p x hx q _
+      by_cases hxe : x < e
+      · simp only [hxe, if_true]
+        rw [colourAt_lt_all _ q x (fun r hr => by have := hRe r hr; omega)]
+        rw [colourAt_lt_all _ q x (fun r hr => by
+          rw [List.mem_map] at hr
+          obtain ⟨r0, h0, rfl⟩ := hr
+          have := hRe r0 h0
+          show x < r0.1
+          omega)]
+      · simp [hxe, colourAt]
+    · -- the next run starts after the end of the range
+      subst hR
+      rw [hscan]
+      have hRe : ∀ s ∈ (o, c) :: R', e < s.1 := by
+        intro s hs
+        simp only [List.mem_cons] at hs
+        rcases hs with rfl | hs
+        · exact hoe
+        · exact Nat.lt_trans hoe ((sorted_cons.mp hsR).1 s hs)
+      have hn : (lastCol L Colour.recved == Colour.flighting) = true → L.map toLost ≠ [] := by
+        intro h
+        rcases hpreQ with ⟨h1, h2⟩ | ⟨h1, _⟩
+        · rw [h2] at h; simp at h
+        · simpa using h1
+      have hpost := mlfPost_spec P (L.map toLost) ((o, c) :: R') e (lastCol L Colour.recved) _ hn
+      rw [hlenLm] at hpost
+      refine ⟨_, hpost, ?_⟩
+      generalize hRdef : (o, c) :: R' = R at *
+      apply finish1
+      · split
+        · rw [List.singleton_append, sorted_cons]
+          exact ⟨hRe, hsR⟩
+        · exact hsR
+      · intro r hr s hs
+        split at hs
+        · simp only [List.singleton_append, List.mem_cons] at hs
+          rcases hs with rfl | hs
+          · exact (hL r hr).1
+          · exact hLltR r hr s hs
+        · exact hLltR r hr s hs
+      · intro s hs
+        have hs' : s ∈ R → s.1 < size := fun h => hsize s (by simp [h])
+        split at hs
+        · simp only [List.singleton_append, List.mem_cons] at hs
+          rcases hs with rfl | hs
+          · have h1 := hRe (o, c) (by rw [← hRdef]; simp)
+            have h2 := hsize (o, c) (by rw [← hRdef]; simp)
+            simp at h1 h2 ⊢; omega
+          · exact hs' hs
+        · exact hs' hs
+      · intro lb hlb hlbe r hr
+        split at hr
+        · rename_i hnie
+          simp only [List.singleton_append, List.mem_cons] at hr
+          rcases hr with rfl | hr
+          · rcases hlbe with h | h
+            · rcases hpreQ with ⟨_, h2⟩ | ⟨h1, _⟩
+              · rw [h2] at hnie; simp at hnie
+              · exact absurd h h1
+            · exact h
+          · exact hlb r hr
+        · exact hlb r hr
+      · intro p x hx q hq
+        by_cases hxe : x < e
+        · simp only [hxe, if_true]
+          rw [colourAt_lt_all (R.map lostRun) q x (fun r hr => by
+            rw [List.mem_map] at hr
+            obtain ⟨r0, h0, rfl⟩ := hr
+            have := hRe r0 h0
+            show x < r0.1
+            omega)]
+          apply colourAt_lt_all
+          intro r hr
+          split at hr
+          · simp only [List.singleton_append, List.mem_cons] at hr
+            rcases hr with rfl | hr
+            · exact hxe
+            · have := hRe r hr; omega
+          · have := hRe r hr; omega
+        · have hq' := hq (by omega)
+          simp only [hxe, if_false]
+          rcases hpreQ with ⟨h1, h2⟩ | ⟨h1, h2⟩
+          · subst h1
+            simp only [if_true] at hq'
+            subst hq'
+            simp [lastCol_nil]
+          · rw [hpreP p h1]
+            simp only [h1, if_false] at hq'
+            subst hq'
+            rcases h2 with h2 | h2
+            · simp [h2, colourAt, hxe]
+            · simp [h2]
 
 end GmQuic.BufMap
